@@ -1,0 +1,18 @@
+//go:build verif
+
+package tsm1
+
+import "io"
+
+// Verification hooks (build tag "verif" only): the WAL reader's buffer growth.
+
+// VerifWALReadChunk is the chunk size of readFullGrowing.
+const VerifWALReadChunk = walReadChunk
+
+// VerifReadFullGrowing runs readFullGrowing on an empty buffer and reports how many bytes
+// were read and how large the buffer became.
+func VerifReadFullGrowing(r io.Reader, n int) (length, capacity int, err error) {
+	var b []byte
+	length, err = readFullGrowing(r, &b, n)
+	return length, cap(b), err
+}
